@@ -235,6 +235,7 @@ func (run *PropRun) report(w *World, t0 time.Time) int {
 	exit := 0
 	knownPrinted := map[string]bool{}
 	var failed []*Result
+	var slow []string
 	for _, r := range run.Results {
 		if r.Ob.Kind == "map-range-order" && id != "C11" && id != "C01" {
 			continue // iteration-order dependence is decided under C11
@@ -247,6 +248,9 @@ func (run *PropRun) report(w *World, t0 time.Time) int {
 			discharged++
 			bySolver[r.Solver]++
 			solverSecs += r.Secs
+			if r.Solver != "simplifier" && r.Solver != "z3-new/qf" {
+				slow = append(slow, fmt.Sprintf("%.1fs %s %s", r.Secs, r.Solver, r.Ob.Name))
+			}
 			if len(samples) < 6 && r.Solver != "simplifier" {
 				samples = append(samples, map[string]interface{}{"obligation": r.Ob.Name, "kind": r.Ob.Kind, "claim": r.Ob.Desc, "backend": r.Solver, "status": "discharged"})
 			}
@@ -336,6 +340,7 @@ func (run *PropRun) report(w *World, t0 time.Time) int {
 		"backends":           bySolver,
 		"solver_seconds":     round2(solverSecs),
 		"notes":              uniq(run.Notes),
+		"needed_full_hypotheses": slow,
 		"extra":              run.Extra,
 		"bounded_standins":   run.Bounded,
 		"explanation":        run.Spec.Note,
